@@ -47,6 +47,9 @@ def variants(case):
 
 def run_case(case):
     a, b = case["prog"], case["prog2"]
+    if known.active("three-same-signal-sources") and any(lang.same_type_fanin(p_) for p_ in (b,)):
+        # open finding F-three-same: such a program is wired wrongly, and differently in every layout
+        return {"discard": "excluded:F-three-same", "counters": {"excluded_by:F-three-same": 1}}
     names = [s.name for s in a.stmts if isinstance(s, lang.Decl) and s.name.startswith("r")]
     init = {n: (d.e.val.v if isinstance(d.e, lang.SigLit) else d.e.v) for n, d in lang.input_decls(a).items()}
     r = twin.twin_check(a, b, case, names, case["vals"], init=init, optimizeA=case.get("optimize", True),
